@@ -13,6 +13,7 @@ package mocks
 // equation on that counter.
 
 //@ ghost field SyncProducer.reported int
+//@ ghost field SyncProducer.chosen int32
 //@ guarded SyncProducer.l: expectations, lastOffset
 
 // the configured topic partition counts: an override for the topic, else the default
@@ -46,6 +47,11 @@ package mocks
 //@   assume_acq 0 <= sp.lastOffset && sp.lastOffset < 4611686018427387904
 //@   callsite ErrorReporter.Errorf: effect sp.reported == old(sp.reported) + 1
 //@   callsite ErrorReporter.Errorf: modifies sp.reported
+//@   callsite Partitioner.Partition: requires[configured_partition_count] $numPartitions == ite(haskey(sp.TopicConfig.overridePartitions, msg.Topic), sp.TopicConfig.overridePartitions[msg.Topic], sp.TopicConfig.defaultPartitions)
+//@   callsite Partitioner.Partition: requires[this_message] $message == msg
+//@   callsite Partitioner.Partition: effect sp.chosen == $result
+//@   callsite Partitioner.Partition: modifies sp.chosen
+//@   ensures[partition_from_partitioner] err == nil ==> msg.Partition == sp.chosen
 //@   ensures[consumes_first] acq(len(sp.expectations)) > 0 ==> len(sp.expectations) == acq(len(sp.expectations)) - 1 && forall k :: 0 <= k && k < len(sp.expectations) ==> sp.expectations[k] == acq(sp.expectations[k+1])
 //@   ensures[unexpected_input_reported] acq(len(sp.expectations)) == 0 ==> err == errOutOfExpectations && sp.reported == old(sp.reported) + 1 && len(sp.expectations) == 0 && sp.lastOffset == acq(sp.lastOffset)
 //@   ensures[success_is_scripted] acq(len(sp.expectations)) > 0 && err == nil ==> acq(sp.expectations[0]).Result == nil
@@ -63,3 +69,110 @@ package mocks
 //@   ensures[leftovers_reported] acq(len(sp.expectations)) > 0 ==> sp.reported == old(sp.reported) + 1
 //@   ensures[clean_close_is_quiet] acq(len(sp.expectations)) == 0 ==> sp.reported == old(sp.reported)
 //@   ensures[nil] err == nil
+
+// ---------------------------------------------------------------------------------------------
+// AsyncProducer: the goroutine started by NewAsyncProducer handles one input message per iteration under mp.l.
+// sent(ch) is the engine's ghost count of sends on a channel: an outcome for the message is a send on
+// mp.successes or mp.errors.
+
+//@ ghost field AsyncProducer.reported int
+//@ guarded AsyncProducer.l: expectations, lastOffset
+
+//@ func NewAsyncProducer#lit0.CheckFunction(m)
+//@   returns e
+//@   modifies nothing
+//@ func NewAsyncProducer#lit0.Partitioner(t)
+//@   returns p
+//@   modifies nothing
+
+//@ func NewAsyncProducer#lit0() props C20
+//@   requires mp != nil && config != nil && mp.TopicConfig != nil
+// only this goroutine closes the three channels (they are created by NewAsyncProducer, never exposed for closing)
+//@   requires !chanclosed(mp.successes) && !chanclosed(mp.errors) && !chanclosed(mp.closed) && mp.successes != mp.closed && mp.errors != mp.closed && mp.successes != mp.errors
+//@   assume_acq 0 <= mp.lastOffset && mp.lastOffset < 4611686018427387904
+//@   assume_acq forall k :: 0 <= k && k < len(mp.expectations) ==> mp.expectations[k] != nil
+//@   callsite ErrorReporter.Errorf: effect mp.reported == old(mp.reported) + 1
+//@   callsite ErrorReporter.Errorf: modifies mp.reported
+//@   callsite ErrorReporter.Errorf#3: requires[close_reports_only_leftovers] len(mp.expectations) > 0
+//@   loop 0: iter_ensures[one_outcome_at_most] sent(mp.successes) + sent(mp.errors) <= it(sent(mp.successes) + sent(mp.errors)) + 1
+//@   loop 0: iter_ensures[consumes_first] acq(len(mp.expectations)) > 0 ==> len(mp.expectations) == acq(len(mp.expectations)) - 1 && forall k :: 0 <= k && k < len(mp.expectations) ==> mp.expectations[k] == acq(mp.expectations[k+1])
+//@   loop 0: iter_ensures[unexpected_input_reported] acq(len(mp.expectations)) == 0 ==> mp.reported == it(mp.reported) + 1 && sent(mp.successes) == it(sent(mp.successes)) && sent(mp.errors) == it(sent(mp.errors)) && mp.lastOffset == acq(mp.lastOffset)
+//@   loop 0: iter_ensures[success_delivered] acq(len(mp.expectations)) > 0 && mp.reported == it(mp.reported) && acq(mp.expectations[0]).Result == nil ==> mp.lastOffset == acq(mp.lastOffset) + 1 && sent(mp.errors) == it(sent(mp.errors)) && (config.Producer.Return.Successes ==> sent(mp.successes) == it(sent(mp.successes)) + 1 && msg.Offset == mp.lastOffset)
+//@   loop 0: iter_ensures[scripted_error_delivered] acq(len(mp.expectations)) > 0 && mp.reported == it(mp.reported) && acq(mp.expectations[0]).Result != nil ==> mp.lastOffset == acq(mp.lastOffset) && sent(mp.successes) == it(sent(mp.successes)) && (config.Producer.Return.Errors ==> sent(mp.errors) == it(sent(mp.errors)) + 1)
+//@   loop 0: iter_ensures[nothing_else_reported] mp.reported == it(mp.reported) || mp.reported == it(mp.reported) + 1
+
+// ---------------------------------------------------------------------------------------------
+// Consumer / PartitionConsumer mocks.
+
+//@ ghost field Consumer.reported int
+//@ ghost field PartitionConsumer.reported int
+//@ guarded Consumer.l: contents(partitionConsumers), metadata
+
+// ConsumePartition: a partition without expectations is reported and refused; a second consumer for the same
+// partition is refused (quietly); a wrong start offset is reported; the registered mock is handed out otherwise.
+//@ func (c *Consumer) ConsumePartition(topic, partition, offset) props C20
+//@   returns r, err
+//@   requires c.partitionConsumers != nil
+//@   callsite ErrorReporter.Errorf: effect c.reported == old(c.reported) + 1
+//@   callsite ErrorReporter.Errorf: modifies c.reported
+//@   ensures[unexpected_partition_reported] acq(c.partitionConsumers[topic] == nil || c.partitionConsumers[topic][partition] == nil) ==> r == nil && err == errOutOfExpectations && c.reported == old(c.reported) + 1
+//@   ensures[second_consumer_refused] acq(c.partitionConsumers[topic] != nil && c.partitionConsumers[topic][partition] != nil && c.partitionConsumers[topic][partition].consumed) ==> r == nil && err != nil && c.reported == old(c.reported)
+//@   ensures[hands_out_registered_mock] err == nil ==> acq(c.partitionConsumers[topic] != nil) && r == acq(c.partitionConsumers[topic][partition]) && r.(*PartitionConsumer) != nil && r.(*PartitionConsumer).consumed && !old(r.(*PartitionConsumer).consumed)
+//@   ensures[wrong_offset_reported] err == nil ==> c.reported == old(c.reported) + ite(old(r.(*PartitionConsumer).offset) != AnyOffset && old(r.(*PartitionConsumer).offset) != offset, 1, 0)
+
+// YieldMessage: the message is stamped with the mock's topic and partition and the next consecutive offset, the
+// high-water mark advances with it, and the message is delivered (one send on the messages channel).
+// (highWaterMarkOffset is written only by YieldMessage, under pc.l and with sync/atomic, and read atomically)
+//@ func (pc *PartitionConsumer) YieldMessage(msg) props C20
+//@   requires msg != nil
+//@   requires 0 <= pc.highWaterMarkOffset && pc.highWaterMarkOffset < 4611686018427387904
+//@   ensures[stamped] msg.Topic == pc.topic && msg.Partition == pc.partition
+//@   ensures[consecutive_offset] msg.Offset == old(pc.highWaterMarkOffset) + 1 && pc.highWaterMarkOffset == msg.Offset
+//@   ensures[delivered_once] sent(pc.messages) == old(sent(pc.messages)) + 1 && sent(pc.errors) == old(sent(pc.errors))
+
+// the reported high-water mark is one past the offset of the last yielded message
+//@ func (pc *PartitionConsumer) HighWaterMarkOffset() props C20
+//@   returns r
+//@   requires pc.highWaterMarkOffset < 4611686018427387904
+//@   ensures[one_past_last] r == pc.highWaterMarkOffset + 1
+//@   nosafety
+
+//@ func (pc *PartitionConsumer) YieldError(err) props C20
+//@   ensures[delivered_once] sent(pc.errors) == old(sent(pc.errors)) + 1 && sent(pc.messages) == old(sent(pc.messages))
+
+// Close of a partition consumer: a mock that was registered but never consumed is reported (and nothing is
+// closed); undrained channels are reported only when draining was expected.
+//@ func (pc *PartitionConsumer) Close() props C20
+//@   returns err
+//@   callsite ErrorReporter.Errorf: effect pc.reported == old(pc.reported) + 1
+//@   callsite ErrorReporter.Errorf: modifies pc.reported
+//@   callsite ErrorReporter.Errorf#1: requires[errors_reported_only_if_expected_drained] pc.errorsShouldBeDrained
+//@   callsite ErrorReporter.Errorf#2: requires[messages_reported_only_if_expected_drained] pc.messagesShouldBeDrained
+//@   ensures[never_started_reported] !old(pc.consumed) ==> err == errPartitionConsumerNotStarted && pc.reported == old(pc.reported) + 1
+//@   ensures[started_and_nothing_expected_is_quiet] old(pc.consumed) && !pc.errorsShouldBeDrained && !pc.messagesShouldBeDrained ==> pc.reported == old(pc.reported)
+//@   nosafety
+
+// SendMessages: with too few expectations nothing is consumed and the shortage is reported; otherwise the first
+// len(msgs) expectations are consumed in order, message i being handled by expectation i.
+//@ func SyncProducer.SendMessages.CheckFunction(m)
+//@   returns e
+//@   modifies nothing
+//@ func (sp *SyncProducer) SendMessages(msgs) props C20
+//@   returns err
+//@   requires sp.partitioners != nil && sp.TopicConfig != nil
+//@   requires forall k :: 0 <= k && k < len(msgs) ==> msgs[k] != nil
+//@   requires forall a, b :: 0 <= a && a < b && b < len(msgs) ==> msgs[a] != msgs[b]
+//@   assume_acq 0 <= sp.lastOffset && sp.lastOffset < 2305843009213693952 && len(msgs) < 2305843009213693952
+//@   assume_acq forall k :: 0 <= k && k < len(sp.expectations) ==> sp.expectations[k] != nil
+//@   callsite ErrorReporter.Errorf: effect sp.reported == old(sp.reported) + 1
+//@   callsite ErrorReporter.Errorf: modifies sp.reported
+//@   callsite Partitioner.Partition: requires[configured_partition_count] $numPartitions == ite(haskey(sp.TopicConfig.overridePartitions, $message.Topic), sp.TopicConfig.overridePartitions[$message.Topic], sp.TopicConfig.defaultPartitions)
+//@   ensures[shortage_reported] acq(len(sp.expectations)) < len(msgs) ==> err == errOutOfExpectations && sp.reported == old(sp.reported) + 1 && len(sp.expectations) == acq(len(sp.expectations)) && sp.lastOffset == acq(sp.lastOffset)
+//@   ensures[consumes_one_per_message] acq(len(sp.expectations)) >= len(msgs) ==> len(sp.expectations) == acq(len(sp.expectations)) - len(msgs) && forall k :: 0 <= k && k < len(sp.expectations) ==> sp.expectations[k] == acq(sp.expectations[k+len(msgs)])
+//@   ensures[all_succeeded_offsets] acq(len(sp.expectations)) >= len(msgs) && err == nil ==> sp.lastOffset == acq(sp.lastOffset) + len(msgs) && forall k :: 0 <= k && k < len(msgs) ==> msgs[k].Offset == acq(sp.lastOffset) + k + 1
+//@   ensures[quiet_success] err == nil ==> sp.reported == old(sp.reported)
+//@   loop 0: invariant sp.reported == old(sp.reported) && sp.lastOffset == acq(sp.lastOffset) + $i && len(sp.expectations) == acq(len(sp.expectations)) - len(msgs)
+//@   loop 0: invariant forall k :: 0 <= k && k < len(sp.expectations) ==> sp.expectations[k] == acq(sp.expectations[k+len(msgs)])
+//@   loop 0: invariant forall k :: 0 <= k && k < $i ==> msgs[k].Offset == acq(sp.lastOffset) + k + 1
+//@   loop 0: invariant forall k :: 0 <= k && k < len(expectations) ==> expectations[k] != nil
+//@   loop 0: invariant len(expectations) == len(msgs)
